@@ -3,24 +3,24 @@ import Zrnt.Schema.SpecForks
 namespace Zrnt.Schema.Spec
 open Zrnt.Schema
 
-def table : List (String × STy) :=
+def table : List (Name × STy) :=
   commonTable ++ phase0Table ++ altairTable ++ bellatrixTable ++ capellaTable ++ denebTable ++ electraTable
 
-def lookup (name : String) : Option STy := (table.find? (·.1 == name)).map (·.2)
+def lookup (name : Name) : Option STy := (table.find? (·.1 == name)).map (·.2)
 
 /-- the configuration constants that occur in some schema, in the order used on `zmodel` op lines -/
-def configKeys : List String := [
-  "MAX_COMMITTEES_PER_SLOT", "MAX_VALIDATORS_PER_COMMITTEE", "SLOTS_PER_EPOCH", "EPOCHS_PER_ETH1_VOTING_PERIOD",
-  "SLOTS_PER_HISTORICAL_ROOT", "EPOCHS_PER_HISTORICAL_VECTOR", "EPOCHS_PER_SLASHINGS_VECTOR",
-  "HISTORICAL_ROOTS_LIMIT", "VALIDATOR_REGISTRY_LIMIT",
-  "MAX_PROPOSER_SLASHINGS", "MAX_ATTESTER_SLASHINGS", "MAX_ATTESTATIONS", "MAX_DEPOSITS", "MAX_VOLUNTARY_EXITS",
-  "SYNC_COMMITTEE_SIZE",
-  "MAX_BYTES_PER_TRANSACTION", "MAX_TRANSACTIONS_PER_PAYLOAD",
-  "MAX_BLS_TO_EXECUTION_CHANGES", "MAX_WITHDRAWALS_PER_PAYLOAD",
-  "MAX_BLOB_COMMITMENTS_PER_BLOCK",
-  "PENDING_DEPOSITS_LIMIT", "PENDING_PARTIAL_WITHDRAWALS_LIMIT", "PENDING_CONSOLIDATIONS_LIMIT",
-  "MAX_ATTESTER_SLASHINGS_ELECTRA", "MAX_ATTESTATIONS_ELECTRA",
-  "MAX_CONSOLIDATION_REQUESTS_PER_PAYLOAD", "MAX_DEPOSIT_REQUESTS_PER_PAYLOAD", "MAX_WITHDRAWAL_REQUESTS_PER_PAYLOAD"]
+def configKeys : List Name := [
+  n!"MAX_COMMITTEES_PER_SLOT", n!"MAX_VALIDATORS_PER_COMMITTEE", n!"SLOTS_PER_EPOCH", n!"EPOCHS_PER_ETH1_VOTING_PERIOD",
+  n!"SLOTS_PER_HISTORICAL_ROOT", n!"EPOCHS_PER_HISTORICAL_VECTOR", n!"EPOCHS_PER_SLASHINGS_VECTOR",
+  n!"HISTORICAL_ROOTS_LIMIT", n!"VALIDATOR_REGISTRY_LIMIT",
+  n!"MAX_PROPOSER_SLASHINGS", n!"MAX_ATTESTER_SLASHINGS", n!"MAX_ATTESTATIONS", n!"MAX_DEPOSITS", n!"MAX_VOLUNTARY_EXITS",
+  n!"SYNC_COMMITTEE_SIZE",
+  n!"MAX_BYTES_PER_TRANSACTION", n!"MAX_TRANSACTIONS_PER_PAYLOAD",
+  n!"MAX_BLS_TO_EXECUTION_CHANGES", n!"MAX_WITHDRAWALS_PER_PAYLOAD",
+  n!"MAX_BLOB_COMMITMENTS_PER_BLOCK",
+  n!"PENDING_DEPOSITS_LIMIT", n!"PENDING_PARTIAL_WITHDRAWALS_LIMIT", n!"PENDING_CONSOLIDATIONS_LIMIT",
+  n!"MAX_ATTESTER_SLASHINGS_ELECTRA", n!"MAX_ATTESTATIONS_ELECTRA",
+  n!"MAX_CONSOLIDATION_REQUESTS_PER_PAYLOAD", n!"MAX_DEPOSIT_REQUESTS_PER_PAYLOAD", n!"MAX_WITHDRAWAL_REQUESTS_PER_PAYLOAD"]
 
 /-- configuration from the positional value list of an op line -/
 def configOf (vals : List Nat) : Config := fun k =>
